@@ -47,11 +47,18 @@ impl Decoder for Socks5InitialRequestDecoder {
     type Error = anyhow::Error;
 
     fn decode(&mut self, src: &mut BytesMut) -> Result<Option<Self::Item>> {
-        let version = src.get_u8();
+        if src.remaining() < 2 {
+            return Ok(None);
+        }
+        let version = src[0];
         if VERSION != version {
             bail!("unsupported version: {}", version);
         }
-        let count = src.get_u8() as usize;
+        let count = src[1] as usize;
+        if src.remaining() < 2 + count {
+            return Ok(None);
+        }
+        src.advance(2);
         let mut auth_methods = Vec::with_capacity(count);
         for _ in 0..count {
             auth_methods.push(Socks5AuthMethod::new(src.get_u8())?);
@@ -68,12 +75,21 @@ impl Decoder for Socks5CommandRequestDecoder {
     type Error = anyhow::Error;
 
     fn decode(&mut self, src: &mut BytesMut) -> Result<Option<Self::Item>> {
-        let version = src.get_u8();
+        if src.remaining() < 4 {
+            return Ok(None);
+        }
+        let version = src[0];
         if VERSION != version {
             bail!("unsupported version: {}", version);
         }
-        let command_type = Socks5CommandType::new(src.get_u8())?;
-        src.advance(1); // Reserved
+        let command_type = Socks5CommandType::new(src[1])?;
+        let Some(addr_len) = address::try_decode_at(src, 3)? else {
+            return Ok(None);
+        };
+        if src.remaining() < 3 + addr_len {
+            return Ok(None);
+        }
+        src.advance(3); // Version, Command, Reserved
         let addr = address::decode(src)?;
         Ok(Some(Socks5CommandRequest::new(command_type, addr)))
     }
@@ -87,11 +103,16 @@ impl Decoder for Socks5InitialResponseDecoder {
     type Error = anyhow::Error;
 
     fn decode(&mut self, src: &mut BytesMut) -> Result<Option<Self::Item>, Self::Error> {
-        let version = src.get_u8();
+        if src.remaining() < 2 {
+            return Ok(None);
+        }
+        let version = src[0];
         if VERSION != version {
             bail!("unsupported version: {}", version);
         }
-        Ok(Some(Socks5InitialResponse::new(Socks5AuthMethod::new(src.get_u8())?)))
+        let auth_method = Socks5AuthMethod::new(src[1])?;
+        src.advance(2);
+        Ok(Some(Socks5InitialResponse::new(auth_method)))
     }
 }
 
@@ -103,12 +124,21 @@ impl Decoder for Socks5CommandResponseDecoder {
     type Error = anyhow::Error;
 
     fn decode(&mut self, src: &mut BytesMut) -> Result<Option<Self::Item>> {
-        let version = src.get_u8();
+        if src.remaining() < 4 {
+            return Ok(None);
+        }
+        let version = src[0];
         if VERSION != version {
             bail!("unsupported version: {}", version);
         }
-        let command_status = Socks5CommandStatus::try_from(src.get_u8())?;
-        src.advance(1); // Reserved
+        let command_status = Socks5CommandStatus::try_from(src[1])?;
+        let Some(addr_len) = address::try_decode_at(src, 3)? else {
+            return Ok(None);
+        };
+        if src.remaining() < 3 + addr_len {
+            return Ok(None);
+        }
+        src.advance(3); // Version, Status, Reserved
         let addr = address::decode(src)?;
         Ok(Some(Socks5CommandResponse::new(command_status, addr)))
     }
